@@ -44,7 +44,8 @@ CALL TABLE (trusted meaning of library calls):
    easter.py by harness/gen_easter.py; ValueError outside its domain) as an ordinal;
    divmod(a, c) -> (a / c, a mod c); list(range(n)) / range(a, b) -> zrange; datetime.time(h, m, s,
    tzinfo=rr._tzinfo) -> RRNorm.mk_time (second of day, ValueError outside the ranges; tzinfo is
-   opaque); list.sort() on times -> sortZ; `[v]*n` -> py_repeat.
+   opaque); list.sort() on times -> sortZ; `[v]*n` -> py_repeat; datetime.date.max -> Cal.max_ord (3652059,
+   the ordinal of 9999-12-31).
 """
 import ast
 import hashlib
@@ -339,6 +340,8 @@ class Fn:
                 return [], RR_ATTRS[e.attr][0], RR_ATTRS[e.attr][1]
             if isinstance(e.value, ast.Name) and e.value.id == "datetime" and e.attr == "MAXYEAR":
                 return [], "T_MAXYEAR", "int"
+            if ast.dump(e) == ast.dump(ast.parse("datetime.date.max", mode="eval").body):
+                return [], "max_ord", "date"          # date(9999, 12, 31), as its ordinal Cal.max_ord = 3652059
             if k == "self.rrule":
                 return [], "rl", "rr"
             fail("attribute", e)
